@@ -97,6 +97,7 @@ class E2EWorld(World):
         st.D.user.probe = probe
         st.budget = self.K
         st.cancels = self.cfg.get("cancels", 0)
+        st.busy_puts = self.cfg.get("busy_puts", 0)
         st.ntx = 1
         ok = st.S.h.put_request(core.put_request(c))
         assert ok
@@ -156,6 +157,8 @@ class E2EWorld(World):
         if self.cfg.get("tx2") is not None and st.ntx == 1 and self.both_idle(st) and not st.sd and not st.ds and not st.limbo \
                 and (st.fin["S"] or st.fin["D"] or st.S.closed):
             evs.append(("put2",))  # a second transaction on the same two handlers (request-level overrides in cfg['tx2'])
+        if getattr(st, "busy_puts", 0) > 0 and st.S.h.state == CfdpState.BUSY:
+            evs.append(("putbusy", "S"))  # a premature put request: must be refused and leave the running transfer alone
         if getattr(st, "cancels", 0) > 0:
             for e in ("S", "D"):
                 ent = getattr(st, e)
@@ -222,7 +225,7 @@ class E2EWorld(World):
     def apply(self, st, ev):
         out = {}
         k = ev[0]
-        if k in ("tick", "expire", "cancel"):
+        if k in ("tick", "expire", "cancel", "putbusy"):
             out["pre_step"] = getattr(st, ev[1]).h.states.step.name
         if k == "tick":
             ent = getattr(st, ev[1])
@@ -242,6 +245,14 @@ class E2EWorld(World):
             c2.update(self.cfg["tx2"])
             st.ntx = 2
             st.fin = {"S": [], "D": []}
+            obs, msgs, ret = st.S.call(st.S.h.put_request, core.put_request(c2))
+            obs["ret"] = ret
+            self._entity_obs(st, "S", obs, msgs, out)
+            self._send(st, "S", msgs)
+        elif k == "putbusy":
+            st.busy_puts -= 1
+            c2 = dict(self.c)
+            c2.update(md_only=not self.c["md_only"], req_mode="unack" if self.c["mode"] == "ack" else "ack", req_closure=not self.c["closure"])
             obs, msgs, ret = st.S.call(st.S.h.put_request, core.put_request(c2))
             obs["ret"] = ret
             self._entity_obs(st, "S", obs, msgs, out)
